@@ -800,6 +800,21 @@ package url
 //@            url.username == specCredU(runesOf((prev(atFlag) ? "%40" + prev(bufv(buffer)) : prev(bufv(buffer)))), runeCount((prev(atFlag) ? "%40" + prev(bufv(buffer)) : prev(bufv(buffer)))), prev(url.username), prev(passwordTokenSeenFlag), bsBits(UserInfoPercentEncodeSet.bs), UserInfoPercentEncodeSet.allBelow)
 //@            && url.password == specCredP(runesOf((prev(atFlag) ? "%40" + prev(bufv(buffer)) : prev(bufv(buffer)))), runeCount((prev(atFlag) ? "%40" + prev(bufv(buffer)) : prev(bufv(buffer)))), prev(url.password), prev(passwordTokenSeenFlag), bsBits(UserInfoPercentEncodeSet.bs), UserInfoPercentEncodeSet.allBelow))   [C01 authority-credentials]
 //@   loop 1 step (prev(state) == StateAuthority && r != 0x40) ==> (url.username == prev(url.username) && url.password == prev(url.password))   [C01 authority-credentials]
+//@   loop 1 step (prev(state) == StateAuthority && r != 0x40 && !(prev(input.pointer) + 1 >= input.length || r == 0x2F || r == 0x3F || r == 0x23 || (special(url, url.scheme) && r == 0x5C))) ==> bufv(buffer) == prev(bufv(buffer)) + utf8(r)   [C01,C05 authority-buffer]
+//@   loop 1 step (prev(state) == StateAuthority && r != 0x40 && (prev(input.pointer) + 1 >= input.length || r == 0x2F || r == 0x3F || r == 0x23 || (special(url, url.scheme) && r == 0x5C))) ==> bufv(buffer) == ""   [C01,C05 authority-buffer]
+//@   loop 1 step ((prev(state) == StateHost || prev(state) == StateHostname) && !(stateOverridden && url.scheme == "file") && !((r == 0x3A && !prev(bracketFlag)) || (prev(input.pointer) + 1 >= input.length || r == 0x2F || r == 0x3F || r == 0x23 || (special(url, url.scheme) && r == 0x5C)))) ==> (bracketFlag == (r == 0x5B ? true : (r == 0x5D ? false : prev(bracketFlag))) && ((r != 0xFFFD || !p.opts.acceptInvalidCodepoints) ==> bufv(buffer) == prev(bufv(buffer)) + utf8(r)))   [C01,C05 host-state]
+//@   loop 1 step ((prev(state) == StateHost || prev(state) == StateHostname) && !stateOverridden && ((r == 0x3A && !prev(bracketFlag)) || (prev(input.pointer) + 1 >= input.length || r == 0x2F || r == 0x3F || r == 0x23 || (special(url, url.scheme) && r == 0x5C)))) ==> (url.host != nil && bufv(buffer) == "" && ((special(url, url.scheme) && p.opts.preParseHostFunc == nil && p.opts.postParseHostFunc == nil && !p.opts.laxHostParsing && prev(bufv(buffer)) != "" && prev(bufv(buffer))[0] != 0x5B && !specEndsInANumber(hostASCII(p, prev(bufv(buffer))))) ==> *url.host == hostASCII(p, prev(bufv(buffer)))))   [C01,C05 host-state]
+//@   loop 1 step (prev(state) == StatePort && specIsDigit(r)) ==> (bufv(buffer) == prev(bufv(buffer)) + utf8(r) && url.port == prev(url.port))   [C01,C05 port-state]
+//@   loop 1 step (prev(state) == StatePort && !specIsDigit(r) && prev(bufv(buffer)) == "") ==> (url.port == prev(url.port) && url.decodedPort == prev(url.decodedPort))   [C01,C05 port-state]
+//@   loop 1 step (prev(state) == StatePort && !specIsDigit(r) && prev(bufv(buffer)) != "" && specAtoiOK(prev(bufv(buffer)))) ==> (specAtoiVal(prev(bufv(buffer))) <= 65535 && bufv(buffer) == "" && ((special(url, url.scheme) && defPort(url, url.scheme) == specItoa(specAtoiVal(prev(bufv(buffer))))) ? (url.port == nil && url.decodedPort == 0) : (url.port != nil && *url.port == specItoa(specAtoiVal(prev(bufv(buffer)))) && url.decodedPort == specAtoiVal(prev(bufv(buffer))))))   [C01,C05 port-state]
+//@   loop 1 step (prev(state) == StateFileHost && !(prev(input.pointer) + 1 >= input.length || r == 0x2F || r == 0x5C || r == 0x3F || r == 0x23)) ==> bufv(buffer) == prev(bufv(buffer)) + utf8(r)   [C01,C05 file-host-state]
+//@   loop 1 step (prev(state) == StateFileHost && (prev(input.pointer) + 1 >= input.length || r == 0x2F || r == 0x5C || r == 0x3F || r == 0x23) && !(!stateOverridden && isWDL(prev(bufv(buffer)))) && prev(bufv(buffer)) == "") ==> (url.host != nil && *url.host == "")   [C01,C05 file-host-state]
+//@   loop 1 step (prev(state) == StateFileHost && (prev(input.pointer) + 1 >= input.length || r == 0x2F || r == 0x5C || r == 0x3F || r == 0x23) && !(!stateOverridden && isWDL(prev(bufv(buffer)))) && (special(url, url.scheme) && p.opts.preParseHostFunc == nil && p.opts.postParseHostFunc == nil && !p.opts.laxHostParsing && prev(bufv(buffer)) != "" && prev(bufv(buffer))[0] != 0x5B && !specEndsInANumber(hostASCII(p, prev(bufv(buffer)))))) ==> (url.host != nil && bufv(buffer) == "" && *url.host == (hostASCII(p, prev(bufv(buffer))) == "localhost" ? "" : hostASCII(p, prev(bufv(buffer)))))   [C01,C05 file-host-localhost]
+//@   loop 1 step (prev(state) == StatePath && !(prev(input.pointer) + 1 >= input.length || r == 0x2F || (special(url, url.scheme) && r == 0x5C) || (!stateOverridden && (r == 0x3F || r == 0x23))) && p.opts.encodingOverride == nil) ==> bufv(buffer) == prev(bufv(buffer)) + specEncRune(r, (p.opts.pathPercentEncodeSet == nil || setHas(p.opts.pathPercentEncodeSet, r) || (p.opts.percentEncodeSinglePercentSign && specBadEscape(inC(url), prev(input.pointer) + 1, input.length))))   [C01,C05 path-state-code-point]
+//@   loop 1 step (prev(state) == StatePath && (prev(input.pointer) + 1 >= input.length || r == 0x2F || (special(url, url.scheme) && r == 0x5C) || (!stateOverridden && (r == 0x3F || r == 0x23))) && !isDD(prev(bufv(buffer))) && !isSD(prev(bufv(buffer))) && !(url.scheme == "file" && prev(len(url.path.p)) == 0 && isWDL(prev(bufv(buffer)))) && !(p.opts.collapseConsecutiveSlashes && special(url, url.scheme) && prev(len(url.path.p)) > 0 && len(prev(url.path.p[len(url.path.p) - 1])) == 0)) ==> (len(url.path.p) == prev(len(url.path.p)) + 1 && url.path.p[len(url.path.p) - 1] == prev(bufv(buffer)) && !url.path.opaque && (forall k int :: (0 <= k && k < prev(len(url.path.p))) ==> url.path.p[k] == prev(url.path.p[k])) && bufv(buffer) == "")   [C01,C05 path-state-segment]
+//@   loop 1 step (prev(state) == StatePath && (prev(input.pointer) + 1 >= input.length || r == 0x2F || (special(url, url.scheme) && r == 0x5C) || (!stateOverridden && (r == 0x3F || r == 0x23))) && !isDD(prev(bufv(buffer))) && !isSD(prev(bufv(buffer))) && (url.scheme == "file" && prev(len(url.path.p)) == 0 && isWDL(prev(bufv(buffer)))) && !p.opts.skipWindowsDriveLetterNormalization) ==> (len(url.path.p) == 1 && url.path.p[0] == prev(bufv(buffer))[0:1] + ":" + prev(bufv(buffer))[2:len(prev(bufv(buffer)))])   [C01,C05 path-state-drive-letter]
+//@   loop 1 step (prev(state) == StatePath && (prev(input.pointer) + 1 >= input.length || r == 0x2F || (special(url, url.scheme) && r == 0x5C) || (!stateOverridden && (r == 0x3F || r == 0x23))) && isDD(prev(bufv(buffer)))) ==> (len(url.path.p) == ((url.scheme == "file" && prev(len(url.path.p)) == 1 && isNWDL(prev(url.path.p[0]))) ? prev(len(url.path.p)) : max(prev(len(url.path.p)) - 1, 0)) + ((r == 0x2F || (special(url, url.scheme) && r == 0x5C)) ? 0 : 1) && (!(r == 0x2F || (special(url, url.scheme) && r == 0x5C)) ==> url.path.p[len(url.path.p) - 1] == "") && (forall k int :: (0 <= k && k < ((url.scheme == "file" && prev(len(url.path.p)) == 1 && isNWDL(prev(url.path.p[0]))) ? prev(len(url.path.p)) : max(prev(len(url.path.p)) - 1, 0))) ==> url.path.p[k] == prev(url.path.p[k])) && bufv(buffer) == "")   [C01,C05 path-state-double-dot]
+//@   loop 1 step (prev(state) == StatePath && (prev(input.pointer) + 1 >= input.length || r == 0x2F || (special(url, url.scheme) && r == 0x5C) || (!stateOverridden && (r == 0x3F || r == 0x23))) && !isDD(prev(bufv(buffer))) && isSD(prev(bufv(buffer)))) ==> (len(url.path.p) == prev(len(url.path.p)) + ((r == 0x2F || (special(url, url.scheme) && r == 0x5C)) ? 0 : 1) && (!(r == 0x2F || (special(url, url.scheme) && r == 0x5C)) ==> url.path.p[len(url.path.p) - 1] == "") && (forall k int :: (0 <= k && k < prev(len(url.path.p))) ==> url.path.p[k] == prev(url.path.p[k])) && bufv(buffer) == "")   [C01,C05 path-state-single-dot]
 //@   loop 1 decreases specRank(state), input.length - input.pointer
 //@   loop 2 modifies url.username, url.password, bb.pointer, bb.eof
 //@   loop 2 invariant cur(bb) && fresh(bb) && bb != input && url != nil
